@@ -457,3 +457,8 @@ package service
 //@   ensures [owner]     result3 == nil ==> bytes(result2) == old(bytes(account))
 //@   ensures [others]    forall k Bytes :: k != old(bytes(minerId)) ==> @select(ghost(mstake), k) == old(@select(ghost(mstake), k))
 //@   modifies ghost(mstake), ghost(mrec), ghost(stver)
+
+// The pool as seen by the block store (C05): un-marking touches the pool's own databases only.
+//@ func TransactionPool.UnMarkExecuted
+//@   option trusted interface
+//@   modifies ghost(stver)
